@@ -95,6 +95,9 @@ def configs(tier, seed):
             out.append({"fam": "api", "cfg": {"kind": kind, "n": i + 1}})
     for what in REFUSALS:
         out.append({"fam": "refusal", "cfg": {"what": what}})
+    # registers whose field names meet under a flattening: a nested path next to a sibling spelled with '_' / '__'
+    for what in REGNAMES:
+        out.append({"fam": "regnames", "cfg": {"what": what}})
     # degenerate instances every constructor accepts: nothing attached, a single element, one direction only
     for what in DEGENERATE:
         out.append({"fam": "degenerate", "cfg": {"what": what}})
@@ -172,6 +175,35 @@ def _degenerate():
             "wishbone-decoder-empty": wb_dec, "arbiter-no-initiators": arb0, "event-monitor-no-events": evmap0,
             "csr-event-monitor-no-events": evmon0, "gpio-one-pin": gpio1, "sram-two-words": sram1,
             "bridge-empty-map": bridge_empty, "wishbone-csr-bridge-minimal": wbcsr_min}
+
+
+REGNAMES = {"nested-vs-underscore": lambda F: {"rx": {"en": F()}, "rx_en": F()},
+            "list-vs-underscore": lambda F: {"ch": [F(), F()], "ch_0": F()},
+            "nested-vs-double-underscore": lambda F: {"rx": {"en": F()}, "rx__en": F()},         # finding D7
+            "list-vs-double-underscore": lambda F: {"ch": [F(), F()], "ch__0": F()}}            # finding D7
+
+
+def _regnames_maker(cfg):
+    from amaranth_soc import csr
+
+    def make():
+        from ..bmc import Ports
+        from ..nir2smt import raw
+        reg = csr.Register(REGNAMES[cfg["what"]](lambda: csr.Field(csr.action.RW, 3)), access="rw")
+        ports = Ports()
+        for path, member, s_ in reg.signature.flatten(reg):
+            s_ = raw(s_)
+            ports.append(s_)
+            if path[-1] in ("r_stb", "w_stb", "w_data"):
+                ports.env.add(id(s_))          # the bus side drives strobes and write data
+        return Harness(reg, ports, reg=reg)
+    return make
+
+
+def _known_register_collision(item):
+    """finding D7 is exactly: two fields of one register whose paths flatten to the same string under
+    '__'.join(str(part))"""
+    return item.get("fam") == "regnames" and "double-underscore" in item["cfg"]["what"]
 
 
 def _refusal(what):
@@ -282,6 +314,8 @@ def maker(item):
         return _arbmap_maker(item["cfg"])
     if item["fam"] == "degenerate":
         return _degenerate()[item["cfg"]["what"]]
+    if item["fam"] == "regnames":
+        return _regnames_maker(item["cfg"])
     mod = importlib.import_module(f"vt.props.{item['fam']}")
     return mod.maker(item["cfg"])
 
@@ -508,6 +542,8 @@ def check(item, out, stats):
             kind = "internal-error" if n == 1 else ("re-elaborate" if n == 2 else "platform-dependent")
             key = f"{kind}:{name}:{type(e).__name__}:{_site(e)}"
             if type(e).__name__ == "NameError" and item.get("fam") == "bridge" and not _known_bridge_collision(item):
+                key += ":names-distinct-under-__join"
+            if type(e).__name__ == "NameError" and item.get("fam") != "bridge" and not _known_register_collision(item):
                 key += ":names-distinct-under-__join"
             return _violation(out, item, key,
                               f"C19 elaboration #{n} of {name} failed with {type(e).__name__}: {str(e)[:100]} "
